@@ -38,6 +38,7 @@ from concurrent.futures import ThreadPoolExecutor
 from vf import build, tlc, trace, tlclive
 from vf import run as hrun
 from vf.core import InfraError
+from checks.deferred import Deferred
 
 LEVEL = "model_checking"
 READY = True
@@ -651,17 +652,23 @@ def run_cases(ctx, cases, budget, child_timeout, maxdiv, label):
                 pe = [e for e in rest if e.get("e") == "Pred"]
                 pred_blocks.append([b[0], pe[0] if pe else dict(e="PredCrash", site=b[0]["site"], after=[e.get("e") for e in rest])])
                 del b[idx:]
+        # vacuity of the recording (hooks H4 / H6, probes, histories): a changed fit that leaves the hooked loops, or dies in every child, silences these events -
+        # settled at the end of run(), after TLC judged what was recorded (without a run() in progress - replay of one stored case - raised at once)
+        def vac(msg):
+            if getattr(ctx, "_deferred", None) is None:
+                raise InfraError(msg)
+            ctx._deferred.add(msg)
         if any(c["pred"] for c in cases if c["site"] in NIPALS and c["id"] in {b[0]["id"] for b in blocks}) and not pred_blocks and not diverged:
-            raise InfraError("score-predictor probes were scheduled but no PredStart line was recorded")
+            vac("score-predictor probes were scheduled but no PredStart line was recorded")
         need_iter = any(c["site"] in ("PCA", "PLS", "CPCA") and c["rank"] > 0 and c["rlo"] > 0 for c in cases)
         if need_iter and not any(e.get("e") == "Iter" for e in events):
-            raise InfraError("no Iter events: hook H4 is not firing (hooks removed or guard off)")
+            vac("no Iter events: hook H4 is not firing (hooks removed or guard off)")
         km = [e for e in events if e.get("e") == "Returned" and e.get("site") == "KMEANS"]
         if km and not any(e.get("n", 0) > 0 for e in km):
-            raise InfraError("k-means returned but hook H6 (VERIF_STATE in KMeans) never reported an iteration")
+            vac("k-means returned but hook H6 (VERIF_STATE in KMeans) never reported an iteration")
         nwarm = sum(1 for c in cases if c.get("hist") and c["site"] in NIPALS)
         if nwarm and not any(e.get("e") == "Warm" and e.get("passes", 0) > 0 for e in events):
-            raise InfraError("in-process history cases were scheduled but no Warm event with NIPALS passes was recorded")
+            vac("in-process history cases were scheduled but no Warm event with NIPALS passes was recorded")
         ctx.note("%s: %d cases run in child processes (%d skipped after %d diverging cases per (site, kind)), %d events" % (label, len(blocks), skipped, maxdiv, len(events)))
         unguarded = set()
         for b in blocks:
@@ -912,6 +919,7 @@ def run(ctx):
                 + (sum(1 for c in cases if variant_name(c)), sum(1 for c in cases if c["nproc"] > 1), sum(1 for c in cases if c["offl"] or c["yoffl"]),
                    sum(1 for c in cases if c["sc"] or c["yex"]), sum(1 for c in cases if c["den"] > 1 or c["yden"] > 1), sum(1 for c in cases if c["hist"]))))
     _mt_coverage(ctx, cases)
+    ctx._deferred = Deferred(ctx)
     budget = 100000 if ctx.quick else 1000000
     blocks, clean = run_cases(ctx, cases, budget, 20 if ctx.quick else 40, 1 if ctx.quick else 3, "main")
     ctx.cov["rule"] = ("inputs enumerated by TLC (NipalsGen: matrices <= 3x3 over {-1,0,1}%s, dyadic perturbations 2^-3, all responses in {0,1}^rows, response blocks [y, constant]; "
@@ -922,9 +930,11 @@ def run(ctx):
                        "duplicate rows or rank-deficient design"
                        % ((", shapes with > 4 cells sampled deterministically", 20, "33x2 / 4x8", "2, 3, 16", 30) if ctx.quick else (", complete", 38, "65x4 / 8x8", "2, 3, 5, 16, 24", 36)))
     ctx.cov["exhaustive"] = not ctx.quick
-    if clean:
+    if clean and not ctx._deferred:
         _binding(ctx, clean, {c["id"]: _full(c) for c in cases})
-    _certify_ceiling(ctx)
+    if not ctx._deferred:
+        _certify_ceiling(ctx)
+    ctx._deferred.settle()
 
 
 def replay(ctx, body):
